@@ -56,6 +56,8 @@ inductive Act where
   | stop (rest : Act)
   | sleep (t : Int) (rest : Act)
   | ctl (c : Ctl) (rest : Act)
+  /-- `return handle_of_child_c`: the action hands back the disposable of follow-up work it scheduled -/
+  | ret (c : Nat)
 deriving Repr
 
 /-- number of action-tree nodes -/
@@ -67,9 +69,21 @@ def Act.size : Act → Nat
   | .stop r => r.size
   | .sleep _ r => r.size
   | .ctl _ r => r.size
+  | .ret _ => 1
 
 theorem Act.size_pos (a : Act) : 0 < a.size := by
   induction a <;> simp [Act.size] <;> omega
+
+/-- what the action returns when it completes normally: the handle of child `c` (`ret c`), else nothing -/
+def Act.retOf : Act → Option Nat
+  | .done => none
+  | .raise _ => none
+  | .sched _ _ _ _ _ r => r.retOf
+  | .cancel _ r => r.retOf
+  | .stop r => r.retOf
+  | .sleep _ r => r.retOf
+  | .ctl _ r => r.retOf
+  | .ret c => some c
 
 structure Item where
   id : Nat
@@ -110,6 +124,13 @@ structure St where
   skipped : List Nat := []
   hlog : List Err := []
   nsched : Nat := 0
+  /-- `(id, c)`: action `id` completed and returned the handle of action `c`; `ScheduledItem.invoke` stored it in the
+  item's `SingleAssignmentDisposable` (`self.disposable.disposable = ret`), so disposing handle `id` disposes handle `c` -/
+  links : List (Nat × Nat) := []
+  /-- handles (by action id) on which `dispose()` has been called -/
+  dead : List Nat := []
+  /-- ids for which a handle exists (everything scheduled so far); ids are assumed unique -/
+  known : List Nat := []
 
 inductive Out where
   | ok
@@ -125,7 +146,7 @@ def PQ.nodes (q : PQ Item) : Nat := (q.items.map (fun e => e.1.body.size)).sum
 /-- `schedule_absolute`: `si = ScheduledItem(self, state, action, dt); self._queue.enqueue(si)` -/
 def St.enqueue (s : St) (id : Nat) (due : Int) (body : Act) (wrapped : Bool) : St :=
   { s with queue := s.queue.enqueue { id, due, body, wrapped, cancelled := false, seq := s.nsched },
-           nsched := s.nsched + 1 }
+           nsched := s.nsched + 1, known := id :: s.known }
 
 def dueOf (clock : Int) : Mode → Int → Int
   | .imm, _ => clock          -- schedule: schedule_absolute(self._clock, …)
@@ -138,7 +159,29 @@ def cancelEntry (id : Nat) (e : Item × Int) : Item × Int :=
   if e.1.id = id then ({ e.1 with cancelled := true }, e.2) else e
 
 def St.cancel (s : St) (id : Nat) : St :=
-  { s with queue := { s.queue with items := s.queue.items.map (cancelEntry id) } }
+  { s with queue := { s.queue with items := s.queue.items.map (cancelEntry id) },
+           dead := if s.known.contains id then id :: s.dead else s.dead }
+
+/-- the handles reached from handle `id` through returned disposables: `id`, what `id` returned, what that returned, … -/
+def linkClosure (links : List (Nat × Nat)) : Nat → Nat → List Nat
+  | 0, id => [id]
+  | n + 1, id =>
+    match links.find? (fun l => l.1 == id) with
+    | some l => id :: linkClosure links n l.2
+    | none => [id]
+
+/-- `handle.dispose()` as the caller sees it: the `SingleAssignmentDisposable` of action `id` is disposed and disposes
+the disposable the action returned, if it has run — transitively -/
+def St.dispose (s : St) (id : Nat) : St :=
+  (linkClosure s.links s.links.length id).foldl St.cancel s
+
+/-- `ScheduledItem.invoke`: `self.disposable.disposable = ret` — remember what action `id` returned; a
+`SingleAssignmentDisposable` that is already disposed disposes the value assigned to it at once -/
+def St.attachRet (s : St) (id : Nat) : Option Nat → St
+  | none => s
+  | some c =>
+    if s.dead.contains id then ({ s with links := (id, c) :: s.links }).dispose c
+    else { s with links := (id, c) :: s.links }
 
 /-- is a child scheduled by an action (itself wrapped iff `w`) through `via` a `wrapped_action`? -/
 def childWrapped (w : Bool) : Via → Bool
@@ -163,7 +206,7 @@ def exec (w : Bool) : Act → St → St × Option Err
   | .raise e, s => (s, some e)
   | .sched via m t cid child rest, s =>
     exec w rest (s.enqueue cid (dueOf s.clock m t) child (childWrapped w via))
-  | .cancel id rest, s => exec w rest (s.cancel id)
+  | .cancel id rest, s => exec w rest (s.dispose id)
   | .stop rest, s => exec w rest { s with enabled := false }
   | .sleep t rest, s =>
     if t < 0 then (s, some aoor)       -- `if self.now > dt: raise ArgumentOutOfRangeException()`
@@ -171,12 +214,13 @@ def exec (w : Bool) : Act → St → St × Option Err
   | .ctl c rest, s =>
     if ctlRaises s.clock c then (s, some aoor)   -- out of range and not caught by the action
     else exec w rest s                           -- the guard returns at once: nothing changes
+  | .ret _, s => (s, none)                       -- what is returned: `Act.retOf`, attached by `invoke`
 
 /-- `item.invoke()`; for a wrapped action the `try/except` of `CatchScheduler._wrap`. -/
 def invoke (cfg : Cfg) (x : Item) (s : St) : St × Option Err :=
   let s0 := { s with log := s.log ++ [{ id := x.id, at_ := s.clock, due := x.due, seq := x.seq }] }
   match exec x.wrapped x.body s0 with
-  | (s1, none) => (s1, none)
+  | (s1, none) => (s1.attachRet x.id x.body.retOf, none)   -- `self.disposable.disposable = ret`
   | (s1, some e) =>
     if x.wrapped then
       let s2 := { s1 with hlog := s1.hlog ++ [e] }     -- `parent._handler(ex)`
@@ -286,6 +330,23 @@ theorem cancel_nodes (s : St) (id : Nat) : (s.cancel id).queue.nodes = s.queue.n
   simp only [Function.comp, cancelEntry]
   split <;> rfl
 
+theorem foldl_cancel_nodes (l : List Nat) (s : St) : (l.foldl St.cancel s).queue.nodes = s.queue.nodes := by
+  induction l generalizing s with
+  | nil => rfl
+  | cons a l ih => rw [List.foldl_cons, ih, cancel_nodes]
+
+theorem dispose_nodes (s : St) (id : Nat) : (s.dispose id).queue.nodes = s.queue.nodes :=
+  foldl_cancel_nodes _ s
+
+theorem attachRet_nodes (s : St) (id : Nat) (r : Option Nat) : (s.attachRet id r).queue.nodes = s.queue.nodes := by
+  cases r with
+  | none => rfl
+  | some c =>
+    simp only [St.attachRet]
+    split
+    · rw [dispose_nodes]
+    · rfl
+
 theorem enqueue_nodes (s : St) (id : Nat) (due : Int) (b : Act) (w : Bool) :
     (s.enqueue id due b w).queue.nodes = s.queue.nodes + b.size := by
   simp [St.enqueue, PQ.enqueue, PQ.nodes]
@@ -301,8 +362,8 @@ theorem exec_nodes (w : Bool) (a : Act) (s : St) :
     simp only [exec, Act.size]
     omega
   | cancel id rest ih =>
-    have := ih (s.cancel id)
-    rw [cancel_nodes] at this
+    have := ih (s.dispose id)
+    rw [dispose_nodes] at this
     simpa [exec, Act.size] using this
   | stop rest ih => simpa [exec, Act.size] using ih { s with enabled := false }
   | sleep t rest ih =>
@@ -315,6 +376,7 @@ theorem exec_nodes (w : Bool) (a : Act) (s : St) :
     split
     · have := rest.size_pos; simp only; omega
     · exact ih s
+  | ret c => simp [exec, Act.size]
 
 theorem invoke_nodes (cfg : Cfg) (x : Item) (s : St) :
     (invoke cfg x s).1.queue.nodes + 1 ≤ s.queue.nodes + x.body.size := by
@@ -322,7 +384,7 @@ theorem invoke_nodes (cfg : Cfg) (x : Item) (s : St) :
     { s with log := s.log ++ [{ id := x.id, at_ := s.clock, due := x.due, seq := x.seq }] }
   simp only [invoke]
   split
-  · next s1 heq => rw [heq] at h; simpa using h
+  · next s1 heq => rw [heq] at h; simp only [attachRet_nodes]; simpa using h
   · next s1 e heq =>
     rw [heq] at h
     split
@@ -429,7 +491,7 @@ deriving Repr
 
 def doOp (cfg : Cfg) (s : St) : Op → St × Out
   | .sched w m t id body => (s.enqueue id (dueOf s.clock m t) body w, .ok)
-  | .cancel id => (s.cancel id, .ok)
+  | .cancel id => (s.dispose id, .ok)
   | .start => start cfg s
   | .stop => ({ s with enabled := false }, .ok)
   | .advanceTo t => advanceTo cfg t s
